@@ -352,6 +352,7 @@ func runC12(w *World, r *Report) {
 	hrRetryAfterTypeLiteral(w, r, "R6")
 	hrEarlyResponseMessage(w, r, "R6")
 	hrFoldOrder(w, r, "R6")
+	hrStoredResponseOwnsItsHeaders(w, r, "R6")
 	hrCfgURLVariable(w, r, "R3")
 	hrCfgEarlyResponseNotFedBack(w, r, "R6")
 	hrRetryAfterHelpers(w, r, "R6")
@@ -475,7 +476,7 @@ func runC12(w *World, r *Report) {
 			detail = "ttl=" + ttl
 		}
 		v := margs(s)[1]
-		okVal := strings.HasSuffix(Path(litField(v, "Body")), "onResponse.Body") && strings.HasSuffix(Path(litField(v, "Status")), "onResponse.Status") && strings.HasSuffix(Path(litField(v, "Headers")), "onResponse.Headers") &&
+		okVal := strings.HasSuffix(Path(litField(v, "Body")), "onResponse.Body") && strings.HasSuffix(Path(litField(v, "Status")), "onResponse.Status") && strings.HasSuffix(Path(uncopied(litField(v, "Headers"))), "onResponse.Headers") &&
 			isCallTo0(litField(v, "CreationTime"), "clock.Clock).Now")
 		r.Check(ok && okVal, "R4", p.name+"/store-only-when-absent", posOf(s), "Set executes only when Has(key)==false=%v; %s; stored value is this response=%v", absent, detail, okVal)
 	}
@@ -506,7 +507,7 @@ func runC12(w *World, r *Report) {
 			case "EarlyResponseAction":
 				nEarly++
 				fromCache := func(f string) bool {
-					v := litField(a, f)
+					v := uncopied(litField(a, f)) // the stored headers may be handed out as a copy
 					return v != nil && strings.HasSuffix(Path(v), "."+f) && Derives(v, func(x ssa.Value) bool { return x == ssa.Value(g) })
 				}
 				okH := fromCache("Headers")
@@ -601,7 +602,7 @@ func runC12(w *World, r *Report) {
 				r.Check(op1 == "==" && op2 == "==", "R6", "getUpdatedHeaders/fresh-map-on-success", posOf(alt.Ret),
 					"the updated headers are returned when both readRetryAfter (err %q nil) and calcNewRetryAfter (err %q nil) succeeded", op1, op2)
 			}
-			ok := mm != nil && alt.Val == ssa.Value(mm) || Path(alt.Val) == "local:cachedResponse.Headers" && condsHave(alt.Conds, true, func(v ssa.Value) bool { return strings.Contains(Path(v), "RetryAfterType != ") })
+			ok := mm != nil && alt.Val == ssa.Value(mm) || Path(uncopied(alt.Val)) == "local:cachedResponse.Headers" && condsHave(alt.Conds, true, func(v ssa.Value) bool { return strings.Contains(Path(v), "RetryAfterType != ") })
 			r.Check(ok, "R6", "getUpdatedHeaders/returns", posOf(alt.Ret), "returns the fresh map (or the stored headers when the retry-after type is not relative): %s", trunc(Path(alt.Val), 60))
 		}
 	}
@@ -842,4 +843,15 @@ func valuePos(v ssa.Value) token.Pos {
 		return posOf(in)
 	}
 	return v.Pos()
+}
+
+// uncopied: the argument of a header copy (utils.DeepCopyHeaders / maps.Clone), or v itself.
+func uncopied(v ssa.Value) ssa.Value {
+	if v == nil {
+		return nil
+	}
+	if c, ok := peel(v).(*ssa.Call); ok && isCallTo(c, "utils.DeepCopyHeaders", "maps.Clone") && len(c.Call.Args) == 1 {
+		return c.Call.Args[0]
+	}
+	return v
 }
